@@ -80,8 +80,8 @@ def run(ctx, n_bases=None, rng_name="main", max_seconds=None):
         ctx.hist("base.class", "odd" if odd else "plain")
         ctx.hist("base.tables", len(a["tables"]))
         for desc, b in G.candidate_mutations(rng, a, odd):
-            if desc["m"] == "changeFKOptions":
-                continue  # two ops (drop + add): an edit for C06 pairs, not a catalogue mutation
+            if desc["m"] in ("changeFKOptions", "changeTypeArgs", "swapNamedKind"):
+                continue  # edits for C06 pairs (two ops, or not a family change): not catalogue mutations
             K.run_mutation(ctx, a, desc, b, pending)
         if i < 2:
             ctx.sample({"a": a})
